@@ -133,6 +133,12 @@ def gen_case(rng):
               ("STEP", "M", "1.0", "STEP")] + gen_items(rng, "W", 0 if big else rng.randint(0, 5))
     if rng.random() < 0.3:
         s.well.append((rng.choice(["UWI", "API", "uwi"]), "", rng.choice(["100091604920W300", "007", "0012"]), "ID"))
+    if rng.random() < 0.2:
+        # round 7 (C03_5): an empty value, no unit and a description that is a numeric literal -- in a 1.2 file the line reads
+        # "M .  1985 :" and a reader that takes a bare number left of an empty right-hand side for the value swaps the fields
+        it = (rng.choice(["YEAR", "RUNNO", "X1"]), "", "", rng.choice(["1985", "12.5", "007", "-3", "1e3"]))
+        if conformant_item(it, "W"):
+            s.well.append(it)
     if rng.random() < 0.25:
         # a duplicated special mnemonic (its value/description order differs from the default in 1.2)
         s.well.append((rng.choice(["NULL", "null", "NULL"]), "", rng.choice(["-9999", "-999.25", "0"]), "second null value"))
